@@ -1,6 +1,6 @@
 CONSTANTS
  P0Choices = {2,3,5}
- P1Choices = {1,3}
+ P1Choices = {1,3,4}
  TsPatterns = {"inc","mix"}
  StatModes = {"base","tix"}
  TimeChoices = {1,2}
@@ -8,6 +8,7 @@ CONSTANTS
  DevPruneOnBase = FALSE
  DevTimeMinOnly = FALSE
  DevLimitPerSegment = TRUE
+ DevMaxOffsetAcrossPartitions = FALSE
 INIT Init
 NEXT Next
 INVARIANTS C36_ResultEqualsDirect
